@@ -76,13 +76,11 @@ def instances(tier, seed):
                                 labs_b = lib.label_structures(kinds, bonds_b, qntot, qb, values=vals, cap=1, stride_seed=seed + 1)
                                 for lb in labs_b:
                                     for op in STATE2:
-                                        # complex entries: `dot` everywhere in the thorough tier; `distance` (square root of a complex quadratic form: minutes per
-                                        # instance) only on two-site chains with the centres at the ends
+                                        # complex entries: `dot` everywhere in the thorough tier; `distance` stays real
                                         ck = "real"
                                         if tier != "quick" and op == "dot":
                                             ck = "cplx"
-                                        if tier != "quick" and op == "distance" and n == 2 and qa == qb and qntot == 1 and bonds_a == bonds_b:
-                                            ck = "cplx"
+                                        # (`distance` with complex entries: the square root of a complex quadratic form stays `unknown` at the budget - outside the bound)
                                         add(op, kinds=kinds, bonds_a=bonds_a, bonds_b=bonds_b, qntot=qntot, qnidx_a=qa, qnidx_b=qb,
                                             qn_a=la, qn_b=lb, kind=ck)
         # operator ops: operator charge dq in {0, +1, -1}
